@@ -428,6 +428,17 @@ func (m *machine) runPath(fn *ssa.Function, prefix []dec) (res pathResult, alts 
 		}()
 		m.callSSA(nil, 0, fn, nil, nil)
 	}()
+	if res.Status != "error" {
+		func() {
+			defer func() {
+				if r := recover(); r != nil {
+					res.Status = "error"
+					res.Msg = fmt.Sprintf("while deciding deferred assertions: %v", r)
+				}
+			}()
+			m.flushDeferred()
+		}()
+	}
 	res.Decisions = append([]dec(nil), m.decisions...)
 	res.Asserts = m.asserts
 	for c := range m.covers {
